@@ -23,7 +23,8 @@ MANIFEST = {
             "--no-overwrite, --omit-serialization-support, --generate-support, line post-processor options and the set of types, for c, cpp, "
             "py and html; directories are pre-populated with foreign files, longer and shorter read-only files at generated paths and "
             "read-only support headers. Every step runs under setpriv --bounding-set=-dac_override,-dac_read_search (canary: a 0444 "
-            "file must refuse writing there). The recorded event log is checked offline against reference maps.",
+            "file must refuse writing there). The recorded event log is checked offline against reference maps."
+            " File modes include the boundary value 0 and modes without owner read permission.",
     "note": "Not judged: files the step does not generate; new files created before a --no-overwrite conflict is detected; error wording.",
 }
 
